@@ -101,5 +101,78 @@ def exS : Sorter := { nodes := [1, 2, 3, 4], edges := [(1, 4)], prio := fun v =>
 example : exS.nodes.Nodup ∧ exS.avail = [1, 2, 3] ∧ exS.readyWith [3, 2, 1] 1 = [1] ∧
     exS.readyWith [2, 3, 1] 2 = [2, 1] := by decide
 
+/-! ## History level: a waiting task is never overtaken by a lower priority -/
+
+/-- Runs of a driver over one sorter (no re-creation): any batch sizes, any completion order;
+`h` is everything handed out since the start state. -/
+inductive Run : Sorter → Sorter → List Nat → Prop
+  | nil (s : Sorter) : Run s s []
+  | ready {s s' h} (n : Nat) (b : List Nat) : Run s s' h → LegalBatch s' n b → Run s (s'.take b) (h ++ b)
+  | done {s s' h} (xs : List Nat) : Run s s' h → Run s (s'.finish xs) h
+
+/-- **C19_waiting.** Once a task `x` is ready it stays ready until it is handed out, and every task
+handed out while `x` waits has a priority at least `x`'s — for every batch size, every set
+iteration order (`LegalBatch`), every completion order, any number of steps. So a ready
+`try_first` task is never overtaken by a default or `try_last` task, and a `try_last` task is
+started while another task waits only if that one is `try_last` too. -/
+theorem C19_waiting {s s' : Sorter} {h : List Nat} (hr : Run s s' h) (x : Nat) (hx : x ∈ s.avail)
+    (hnot : x ∉ h) (hnd : x ∉ s'.done) :
+    x ∈ s'.avail ∧ s'.prio = s.prio ∧ ∀ y ∈ h, s.prio x ≤ s.prio y := by
+  induction hr with
+  | nil => exact ⟨hx, rfl, by simp⟩
+  | @ready s' h n b _ hb ih =>
+    have hxh : x ∉ h := fun hm => hnot (List.mem_append_left _ hm)
+    have hxb : x ∉ b := fun hm => hnot (List.mem_append_right _ hm)
+    obtain ⟨hav, hp, hall⟩ := ih hxh hnd
+    refine ⟨?_, hp, ?_⟩
+    · have := mem_avail.1 hav
+      refine mem_avail.2 ⟨this.1, ?_, ?_⟩
+      · simpa [take, indeg0] using this.2.1
+      · simp only [take, List.mem_append, not_or]; exact ⟨this.2.2, hxb⟩
+    · intro y hy
+      rcases List.mem_append.1 hy with hy | hy
+      · exact hall y hy
+      · have := hb.2.2.2.1 y hy x hav hxb
+        rw [hp] at this; exact this
+  | @done s' h xs _ ih =>
+    have hnd' : x ∉ s'.done ∧ x ∉ xs := by
+      simpa [finish, List.mem_append, not_or] using hnd
+    obtain ⟨hav, hp, hall⟩ := ih hnot hnd'.1
+    refine ⟨?_, hp, hall⟩
+    have hm := mem_avail.1 hav
+    refine mem_avail.2 ⟨mem_finish_nodes.2 ⟨hm.1, hnd'.2⟩, ?_, ?_⟩
+    · rw [indeg0_iff] at *
+      intro a ha
+      exact hm.2.1 a (by simp only [finish] at ha; exact (List.mem_filter.1 ha).1)
+    · intro hc
+      simp only [finish] at hc
+      exact hm.2.2 (List.mem_filter.1 hc).1
+
+/-- Corollary for the two marks: while a `try_first` task waits, only `try_first` tasks start. -/
+theorem C19_first_not_overtaken {s s' : Sorter} {h : List Nat} (hr : Run s s' h) (x : Nat)
+    (hx : x ∈ s.avail) (hnot : x ∉ h) (hnd : x ∉ s'.done) (hfirst : s.prio x = 1)
+    (hrange : ∀ v, s.prio v ≤ 1) : ∀ y ∈ h, s.prio y = 1 := by
+  intro y hy
+  have := (C19_waiting hr x hx hnot hnd).2.2 y hy
+  have := hrange y
+  omega
+
+/-- … and a `try_last` task is started while `x` waits only if `x` is `try_last` as well. -/
+theorem C19_last_waits {s s' : Sorter} {h : List Nat} (hr : Run s s' h) (x y : Nat)
+    (hx : x ∈ s.avail) (hnot : x ∉ h) (hnd : x ∉ s'.done) (hy : y ∈ h) (hlast : s.prio y = -1)
+    (hrange : ∀ v, -1 ≤ s.prio v) : s.prio x = -1 := by
+  have := (C19_waiting hr x hx hnot hnd).2.2 y hy
+  have := hrange x
+  omega
+
+/-- Non-vacuity of `Run`: from `exS` (ready: 1 `try_first`, 2 default, 3 `try_last`) hand out `[1]`,
+complete it (4 becomes ready), hand out `[4]` — task 3 waits throughout and is still ready. -/
+example : Run exS (((exS.take [1]).finish [1]).take [4]) ([] ++ [1] ++ [4]) ∧
+    3 ∈ exS.avail ∧ 3 ∈ (((exS.take [1]).finish [1]).take [4]).avail := by
+  refine ⟨?_, by decide, by decide⟩
+  refine Run.ready 1 [4] (Run.done [1] (Run.ready 1 [1] (Run.nil exS) ?_)) ?_
+  · exact (legalBatchB_iff _ _ _).1 (by decide)
+  · exact (legalBatchB_iff _ _ _).1 (by decide)
+
 end Sorter
 end Pytask
